@@ -53,6 +53,7 @@ structure Oracle where
   startOnActive : List (String × String) := []   -- (api id, name): start requested on a process that has been
                                                  -- Running with a live command, in one instance, ever since
   triggers : List (String × Int × Bool) := []   -- (process, code, genuine)
+  expTriggers : List (String × Int) := []       -- read off the configuration: ended by itself with exit_on_end / a failure with exit_on_failure
   calls : List (String × List String) := []     -- api id ↦ op words
   prevCmd : List String := []
   prevRun : List String := []
@@ -188,7 +189,17 @@ def onObs (o : Oracle) (op : List String) (cmdAfter : List String)
     -- ended successfully: reported exit code 0, and the last command that ran (if any) exited with 0
     -- (`lastCode` is kept per name: it is only consulted when no two instances of `x` ever coexisted)
     let okEnd := ex = 0 && (!(o.launchedEver.contains x) || o.ovNames.contains x || lookupD o.lastCode x 0 = 0)
-    (if okEnd then { o with everDoneOk := addS o.everDoneOk x } else o, [])
+    let o := if okEnd then { o with everDoneOk := addS o.everDoneOk x } else o
+    -- what the configuration says about the project exit code, independently of what the
+    -- implementation recorded: a process that ended by itself (its last command was not signalled)
+    -- triggers with its own code under exit_on_end, and under exit_on_failure when that code is not 0
+    -- (only while nothing has been recorded and no shutdown has begun or returned: the first trigger wins)
+    let d := decl o x
+    let code := lookupD o.lastCode x 0
+    let trig := o.triggers.isEmpty && !o.shutdownReturned && o.launchedEver.contains x && o.natural.contains x && !(o.ovNames.contains x) && !o.shutdownBegun &&
+      (lookupD st x ("", 0, 0, "")).1 == "Completed" &&
+      ((d.flags.toList.contains 'e') || (d.policy == "exit_on_failure" && code != 0))
+    (if trig then { o with expTriggers := o.expTriggers ++ [(x, code)] } else o, [])
   | ["launch", x] =>
     let d := decl o x
     -- C01: every dependency that was found registered must have met its condition
@@ -282,7 +293,13 @@ def onObs (o : Oracle) (op : List String) (cmdAfter : List String)
       if o.triggers.isEmpty then (if c = 0 then [] else [s!"C04:nonzero-without-trigger {c}"])
       else if gen.isEmpty then []     -- only victims of an externally requested shutdown: any of their codes
       else if gen.any (·.2.1 = c) then [] else [s!"C04:exit-code-of-victim {c}"]
-    (o, alive ++ codeFail)
+    -- a trigger known from the configuration alone (before any shutdown had begun): the reported
+    -- code must be that of such a trigger
+    let expFail :=
+      if codeFail.isEmpty && !(gen.any (·.2.1 = c)) && !o.expTriggers.isEmpty && !(o.expTriggers.any (·.2 = c)) then
+        [s!"C04:exit-code-not-a-triggers {c} (triggered by {",".intercalate (o.expTriggers.map fun t => t.1 ++ ":" ++ toString t.2)})"]
+      else []
+    (o, alive ++ codeFail ++ expFail)
   | ["ret", id, r] =>
     let o := { o with retd := addS o.retd id }
     match lookupD o.calls id [] with
